@@ -1,7 +1,44 @@
-"""C20 - rotamer assignment is a correct hysteresis state machine (placeholder, translate only)."""
+"""C20 - rotamer assignment is a correct hysteresis state machine.
+
+Entry points driven on the staged copy of /repo:
+  enspara.geometry.rotamer._rotamers / get_gates / is_buffered_transition (core routine and helpers),
+  phi_rotamers / psi_rotamers / chi_rotamers / all_rotamers (wrappers, on mdtraj trajectories),
+  enspara.cards.disorder.transitions (1-D, 2-D ndarray, RaggedArray).
+Every output is checked (a) against an independent hysteresis automaton / first-difference oracle
+written from the property text (-> violation) and (b) against the Lean model (-> disagreement).
+"""
 import ast
 import hashlib
 import os
+from fractions import Fraction
+
+import numpy as np
+
+RULE = ('angle sequences of length 1..40 on a quarter-degree grid in [0,360) that never equal a gate value '
+        '(kinds: uniform, random walk, seam approach from both sides, dwelling next to every gate, basin jumps, '
+        'hard-boundary values) x the three boundary lists read from the source (2 and 3 basins, psi shifted) x '
+        'buffers 0, default, next to every self-wrap threshold, max accepted - 0.25, random (quarter grid) x '
+        'containers float64/float32/list; helper calls on every (state, angle incl. exact gate values); wrappers on '
+        'the bundled peptide topology with real and random coordinates; transitions on random 1-D/2-D/ragged '
+        'state arrays in 8 integer dtypes with quiet rows at start/middle/end/everywhere.  A case is non-trivial '
+        'when the state changes at least once or a buffer kept a state that plain binning would change '
+        '(rotamers) / at least one transition exists (transitions); distinct by canonical input')
+ASSUMPTIONS = ['angles, boundaries and buffers on the quarter-degree grid are exact in float64 and float32, so the '
+               'Rat model sees the same numbers as the code',
+               'numpy comparison of a float32 scalar with a Python int/float on that grid is exact (NEP 50 weak scalars)',
+               'np.digitize(x, increasing bins) = number of bins <= x (numpy contract, re-checked on every exit)',
+               'mdtraj.compute_dihedrals on the atom quadruples a wrapper returns gives the dihedral angles it binned; '
+               'the conversion to [0,360) (and the psi shift) is repeated with the same float32 operations',
+               'RaggedArray rows are read back through .lengths and row indexing; RaggedArray slicing itself is C05']
+TRUSTED_EXTRA = ['AST extraction of the boundary lists / default buffers (harness/props/c20.py:_extract) -> '
+                 'lean/Model/Generated/RotamerConsts.lean']
+
+MIRRORS = [('enspara/geometry/rotamer.py', ['_rotamers', 'is_buffered_transition', 'get_gates', 'phi_rotamers',
+                                            'psi_rotamers', 'chi_rotamers', 'all_rotamers', 'dihedral_angles']),
+           ('enspara/cards/disorder.py', ['transitions'])]
+
+K_F13 = 'hysteresis-two-basin-selfwrap'
+K_SHORT = 'transitions-ragged-row-shorter-than-2'
 
 
 def _const_num(node):
@@ -133,9 +170,709 @@ def translate(repo_dir, gen_dir):
             'sha256_disorder_py': info['sha_disorder'], 'rewritten': old != text}
 
 
+# ----------------------------------------------------------------------------------------------
+# oracles written from the property text (exact rational arithmetic)
+
+Q = Fraction(1, 4)
+
+
+def F(x):
+    return Fraction(x)
+
+
+def basin_of(hb, a):
+    """the basin containing the angle: hb[i] <= a < hb[i+1]"""
+    for i in range(len(hb) - 1):
+        if hb[i] <= a < hb[i + 1]:
+            return i
+    return None
+
+
+def in_widened(hb, b, s, a):
+    """angle a (degrees, on the circle) lies in basin s widened by b on both sides"""
+    lo, hi = hb[s] - b, hb[s + 1] + b
+    return any(lo <= a + 360 * k <= hi for k in (-2, -1, 0, 1, 2))
+
+
+def gate_values(hb, b):
+    g = set()
+    for v in hb:
+        g.add((v - b) % 360)
+        g.add((v + b) % 360)
+    return g
+
+
+def spec_step(hb, b, s, a):
+    return s if in_widened(hb, b, s, a) else basin_of(hb, a)
+
+
+def self_wrapping_basins(hb, b):
+    return [i for i in range(len(hb) - 1) if hb[i + 1] - hb[i] + 2 * b > 360]
+
+
+def rat(x):
+    f = Fraction(x)
+    return [f.numerator, f.denominator]
+
+
+def num(f):
+    """Fraction on the quarter grid -> what a caller would pass (int when integral)"""
+    return int(f) if f.denominator == 1 else float(f)
+
+
+# ----------------------------------------------------------------------------------------------
+# generators
+
+def fix_gates(angles, gates, rng):
+    """move angles that hit a gate value by a quarter degree (stays on the grid)"""
+    out = []
+    for a in angles:
+        a = a % 360
+        tries = 0
+        while a in gates:
+            a = (a + (Q if rng.random() < 0.5 else -Q)) % 360
+            tries += 1
+            if tries > 8:
+                a = (a + 3 * Q) % 360
+        out.append(a)
+    return out
+
+
+def gen_angles(rng, hb, b, kind, n):
+    gates = sorted(gate_values(hb, b))
+    if kind == 'uniform':
+        ang = [Fraction(int(rng.integers(0, 1440)), 4) for _ in range(n)]
+    elif kind == 'walk':
+        cur = Fraction(int(rng.integers(0, 1440)), 4)
+        ang = []
+        scale = int(rng.choice([4, 20, 80, 240]))
+        for _ in range(n):
+            ang.append(cur)
+            cur = (cur + Fraction(int(rng.integers(-scale, scale + 1)), 4)) % 360
+    elif kind == 'seam':
+        # approach 0/360 from one side in small steps, cross, come back
+        side = rng.random() < 0.5
+        cur = Fraction(int(rng.integers(0, 120)), 4) if side else 360 - Fraction(int(rng.integers(1, 120)), 4)
+        ang = []
+        drift = -1 if side else 1
+        for t in range(n):
+            ang.append(cur % 360)
+            if rng.random() < 0.15:
+                drift = -drift
+            cur = cur + drift * Fraction(int(rng.integers(0, 40)), 4)
+    elif kind == 'dwell':
+        # sit right next to the gate values, on both sides, and hop between gates
+        ang = []
+        for _ in range(n):
+            g = gates[int(rng.integers(0, len(gates)))]
+            off = Fraction(int(rng.choice([-8, -2, -1, 1, 2, 8])), 4)
+            ang.append((g + off) % 360)
+    elif kind == 'jump':
+        ang = []
+        for _ in range(n):
+            i = int(rng.integers(0, len(hb) - 1))
+            w = hb[i + 1] - hb[i]
+            ang.append(hb[i] + Fraction(int(rng.integers(0, int(w * 4))), 4))
+    elif kind == 'boundary':
+        ang = []
+        for _ in range(n):
+            v = hb[int(rng.integers(0, len(hb) - 1))]     # 360 itself is outside [0,360)
+            ang.append((v + Fraction(int(rng.choice([-1, 0, 0, 1])), 4)) % 360)
+    else:
+        raise ValueError(kind)
+    return fix_gates(ang, set(gates), rng)
+
+
+def buffer_choices(hb, rng):
+    nb = len(hb) - 1
+    maxb = Fraction(360, nb)
+    specials = [Fraction(0), Fraction(15), Q, maxb - Q, maxb / 2]
+    for i in range(nb):
+        thr = (360 - (hb[i + 1] - hb[i])) / 2          # self-wrap threshold of basin i
+        specials += [thr - Q, thr, thr + Q]
+    specials = [s for s in specials if 0 <= s < maxb]
+    if rng.random() < 0.55:
+        return specials[int(rng.integers(0, len(specials)))]
+    return Fraction(int(rng.integers(0, int(maxb * 4))), 4)
+
+
+KINDS = ['uniform', 'walk', 'seam', 'dwell', 'jump', 'boundary']
+CONTAINERS = ['float64', 'float32', 'list']
+
+
+def gen_rot_case(rng, sets, force_set=None):
+    name = force_set or ['phi', 'psi', 'chi'][int(rng.integers(0, 3))]
+    hb = [F(v) for v in sets[name]]
+    b = buffer_choices(hb, rng)
+    kind = KINDS[int(rng.integers(0, len(KINDS)))]
+    n = int(rng.choice([1, 2, 3, 5, 8, 13, 21, 40]))
+    ang = gen_angles(rng, hb, b, kind, n)
+    return {'t': 'rot', 'set': name, 'hb': [num(v) for v in hb], 'b': rat(b), 'angles': [rat(a) for a in ang],
+            'kind': kind, 'container': CONTAINERS[int(rng.integers(0, 3))],
+            'hb_as_array': bool(rng.random() < 0.3)}
+
+
+# ----------------------------------------------------------------------------------------------
+# rotamers: real call + checks
+
+def call_rotamers(case):
+    from enspara.geometry import rotamer
+    ang = [Fraction(*a) for a in case['angles']]
+    b = Fraction(*case['b'])
+    vals = [float(a) for a in ang]
+    cont = case.get('container', 'float64')
+    if cont == 'float64':
+        arr = np.array(vals, dtype=np.float64)
+    elif cont == 'float32':
+        arr = np.array(vals, dtype=np.float32)
+    else:
+        arr = list(vals)
+    hb = list(case['hb'])
+    if case.get('hb_as_array'):
+        hb = np.array(hb)
+    try:
+        out = rotamer._rotamers(arr, hb, num(b))
+    except Exception as e:  # noqa
+        return {'error': type(e).__name__}
+    return {'ok': [int(x) for x in out], 'dtype': str(getattr(out, 'dtype', '')), 'n': len(out)}
+
+
+ERRMAP = {'DataInvalid': 'data-invalid', 'IndexError': 'index-error', 'ZeroDivisionError': 'zero-division',
+          'ValueError': 'value-error', 'AttributeError': 'attribute-error'}
+
+
+def rot_request(case):
+    return {'op': 'C20.rotamers', 'angles': case['angles'], 'hb': [rat(v) for v in case['hb']], 'b': case['b']}
+
+
+def check_rot(ctx, case, got, model):
+    hb = [F(v) for v in case['hb']]
+    b = Fraction(*case['b'])
+    ang = [Fraction(*a) for a in case['angles']]
+    nb = len(hb) - 1
+    wraps = self_wrapping_basins(hb, b)
+    tags = ['set=%s' % case['set'], 'kind=%s' % case['kind'], 'container=%s' % case.get('container'),
+            'b=0' if b == 0 else ('b-selfwrap' if wraps else 'b-regular'), 'len=%d' % len(ang)]
+    if 'error' in got:
+        ctx.case(case, nontrivial=False, tags=tags + ['raised'])
+        ctx.violation('_rotamers raised %s on an admissible input' % got['error'], case)
+        return
+    st = got['ok']
+    binned = [basin_of(hb, a) for a in ang]
+    changes = sum(1 for i in range(1, len(st)) if st[i] != st[i - 1])
+    held = sum(1 for i in range(len(st)) if st[i] != binned[i])
+    ctx.case(case, nontrivial=(changes > 0 or held > 0),
+             tags=tags + ['changes>0' if changes else 'changes=0', 'buffer-held' if held else 'no-hold'])
+    # state validity
+    if got['n'] != len(ang) or any((s < 0 or s >= nb) for s in st) or 'int' not in got['dtype']:
+        ctx.violation('state sequence has wrong length / invalid basin index / non-integer dtype',
+                      dict(case, got=st))
+        return
+    # first frame
+    if st[0] != binned[0]:
+        ctx.violation('first frame is not the basin containing its angle', dict(case, got=st))
+        return
+    # hysteresis, step by step from the state the code was in
+    bad_known, bad_other = [], []
+    for i in range(1, len(st)):
+        exp = spec_step(hb, b, st[i - 1], ang[i])
+        if st[i] != exp:
+            prev = st[i - 1]
+            if nb == 2 and prev in wraps and in_widened(hb, b, prev, ang[i]) and st[i] != prev:
+                bad_known.append(i)
+            else:
+                bad_other.append(i)
+    if bad_other:
+        ctx.violation('state at frame %d differs from the hysteresis automaton' % bad_other[0],
+                      dict(case, got=st, frame=bad_other[0]))
+        return
+    if bad_known:
+        ctx.violation('two-basin set, widened basin covers the circle, yet the state changed at frame %d'
+                      % bad_known[0], dict(case, got=st, frame=bad_known[0]), key=K_F13)
+    # zero buffer: plain binning
+    if b == 0 and st != binned:
+        ctx.violation('zero buffer is not plain binning', dict(case, got=st))
+        return
+    # model
+    if model.get('ok') != st:
+        ctx.disagreement('Model.Rotamer.rotamers vs _rotamers', dict(case, model=model, impl=got))
+
+
+def gen_err_cases(sets):
+    out = []
+    for name in ('phi', 'psi', 'chi'):
+        hb = sets[name]
+        maxb = Fraction(360, len(hb) - 1)
+        for b in (Fraction(-1, 4), maxb, maxb + 5, Fraction(-15)):
+            out.append({'t': 'rot-err', 'set': name, 'hb': list(hb), 'b': rat(b), 'angles': [rat(10), rat(200)],
+                        'kind': 'bad-buffer', 'container': 'float64'})
+        out.append({'t': 'rot-err', 'set': name, 'hb': list(hb), 'b': rat(15), 'angles': [], 'kind': 'empty',
+                    'container': 'float64'})
+        out.append({'t': 'rot-err', 'set': name, 'hb': [5] + list(hb[1:]), 'b': rat(15), 'angles': [rat(10)],
+                    'kind': 'bad-first-boundary', 'container': 'float64'})
+        out.append({'t': 'rot-err', 'set': name, 'hb': list(hb[:-1]) + [350], 'b': rat(15), 'angles': [rat(10)],
+                    'kind': 'bad-last-boundary', 'container': 'float64'})
+    return out
+
+
+def check_rot_err(ctx, case, got, model):
+    """inputs outside the property's quantifier: only model = code"""
+    ctx.case(case, nontrivial=False, tags=['error-branch:%s' % case['kind']])
+    g = {'error': ERRMAP.get(got['error'], got['error'])} if 'error' in got else {'ok': got['ok']}
+    if g != model:
+        ctx.disagreement('Model.Rotamer.rotamers vs _rotamers (guard / error branch)',
+                         dict(case, model=model, impl=got))
+
+
+# helper level ---------------------------------------------------------------------------------
+
+def helper_scope(ctx, sets):
+    """get_gates / is_buffered_transition on every state of every set, angles around and ON the gates"""
+    from enspara.geometry import rotamer
+    reqs, impl, meta = [], [], []
+    for name in ('phi', 'psi', 'chi'):
+        hb = [F(v) for v in sets[name]]
+        nb = len(hb) - 1
+        maxb = Fraction(360, nb)
+        bs = {Fraction(0), Fraction(15), maxb - Q, maxb / 2}
+        for i in range(nb):
+            thr = (360 - (hb[i + 1] - hb[i])) / 2
+            bs |= {thr - Q, thr, thr + Q}
+        bs = sorted(x for x in bs if 0 <= x < maxb)
+        for b in bs:
+            gates = sorted(gate_values(hb, b))
+            pts = set()
+            for g in gates:
+                pts |= {g, (g + Q) % 360, (g - Q) % 360}
+            pts |= {Fraction(int(x), 4) for x in ctx.rng.integers(0, 1440, size=ctx.n(4, 12))}
+            pts |= {v for v in hb if v < 360}
+            for s in range(nb):
+                lo, up = rotamer.get_gates(s, [num(v) for v in hb], num(b))
+                reqs.append({'op': 'C20.gates', 's': s, 'hb': [rat(v) for v in hb], 'b': rat(b)})
+                impl.append([rat(lo), rat(up)])
+                meta.append(('gates', name, s, b, None))
+                for a in sorted(pts):
+                    r = rotamer.is_buffered_transition(np.int64(s) if (s + len(pts)) % 2 else s, float(a),
+                                                       [num(v) for v in hb], num(b))
+                    reqs.append({'op': 'C20.exit', 's': s, 'a': rat(a), 'hb': [rat(v) for v in hb], 'b': rat(b)})
+                    impl.append(bool(r))
+                    meta.append(('exit', name, s, b, a))
+    resp = ctx.driver(reqs)
+    bad = 0
+    n_pred = 0
+    for rq, im, m, r in zip(reqs, impl, meta, resp):
+        if r.get('ok') != im:
+            bad += 1
+            if bad <= 3:
+                ctx.disagreement('Model.Rotamer.%s vs rotamer.%s' % (
+                    'getGates' if m[0] == 'gates' else 'isBufferedTransition',
+                    'get_gates' if m[0] == 'gates' else 'is_buffered_transition'),
+                    {'t': 'helper', 'req': rq, 'impl': im, 'model': r})
+        if m[0] == 'exit':
+            kind, name, s, b, a = m
+            hb = [F(v) for v in sets[name]]
+            if a in gate_values(hb, b):
+                continue                           # the property excludes exact gate values
+            exp_exit = not in_widened(hb, b, s, a)
+            n_pred += 1
+            if bool(im) != exp_exit:
+                known = (len(hb) == 3 and s in self_wrapping_basins(hb, b) and im)
+                ctx.violation('is_buffered_transition(%d, %s) on %s with buffer %s says %s, widened-basin '
+                              'membership says %s' % (s, float(a), [num(v) for v in hb], float(b), im, exp_exit),
+                              {'t': 'helper', 'req': rq, 'impl': im}, key=K_F13 if known else None)
+    ctx.tag('helper-scope', len(reqs))
+    ctx.evaluations += len(reqs)
+    ctx.note('helper_scope', {'calls': len(reqs), 'exit_predicate_checked': n_pred, 'model_mismatches': bad})
+
+
+# wrappers -------------------------------------------------------------------------------------
+
+def _stage_data_dir():
+    import enspara
+    return os.path.join(os.path.dirname(enspara.__file__), 'test', 'cards_data')
+
+
+def wrapper_scope(ctx, sets, shifts, wseed, thorough):
+    """phi/psi/chi/all_rotamers on the bundled peptide: real frames and random coordinates.
+    Uses its own generator (seed recorded in every replay record) so a recorded failure re-runs identically."""
+    rng = np.random.default_rng(wseed)
+    ident = {'wseed': int(wseed), 'thorough': bool(thorough)}
+    try:
+        import mdtraj as md
+    except Exception as e:  # noqa
+        ctx.skip('mdtraj not importable: %s' % type(e).__name__)
+        return
+    from enspara.geometry import rotamer
+    base = _stage_data_dir()
+    pdb = os.path.join(base, 'PROT_only.pdb')
+    xtc = os.path.join(base, 'trj0.xtc')
+    if not (os.path.exists(pdb) and os.path.getsize(pdb) > 0):
+        ctx.skip('bundled peptide topology missing')
+        return
+    top = md.load(pdb)
+    trajs = []
+    nfr = 60 if thorough else 12
+    xyz = rng.normal(size=(nfr, top.n_atoms, 3)).astype(np.float32)
+    trajs.append(('random-coords', md.Trajectory(xyz, top.topology)))
+    # a slowly drifting random structure: small moves, many dwell-in-buffer frames
+    start = rng.normal(size=(1, top.n_atoms, 3))
+    steps = rng.normal(scale=0.08, size=(nfr, top.n_atoms, 3))
+    trajs.append(('random-drift', md.Trajectory((start + np.cumsum(steps, axis=0)).astype(np.float32), top.topology)))
+    if thorough and os.path.exists(xtc) and os.path.getsize(xtc) > 0:
+        real = md.load(xtc, top=top.topology)
+        off = int(rng.integers(0, max(1, len(real) - 400)))
+        trajs.append(('bundled-xtc', real[off:off + 400:4]))
+    buffers = [15, 0, 30.25] if not thorough else [15, 0, 30.25, 60, 79.75, 100.5, 119.75]
+    reqs, expect = [], []
+    for tname, trj in trajs:
+        for bw in buffers:
+            for kind, fn in (('phi', rotamer.phi_rotamers), ('psi', rotamer.psi_rotamers),
+                             ('chi', rotamer.chi_rotamers)):
+                hb = [F(v) for v in sets[kind]]
+                nbas = len(hb) - 1
+                b = Fraction(bw)
+                if not (0 <= b < Fraction(360, nbas)):
+                    continue
+                try:
+                    rots, got_inds, n_states = fn(trj, buffer_width=bw)
+                except Exception as e:  # noqa
+                    ctx.violation('%s_rotamers raised %s' % (kind, type(e).__name__),
+                                  dict(ident, t='wrapper', traj=tname, kind=kind, b=rat(b)))
+                    continue
+                ctx.tag('wrapper:%s:%s' % (kind, tname))
+                # the dihedral angles of the atom quadruples the wrapper reports, converted to [0, 360) with
+                # the same float32 operations the library uses (so both sides bin bit-identical numbers)
+                try:
+                    deg = np.rad2deg(md.compute_dihedrals(trj, np.asarray(got_inds, dtype=int)))
+                    deg[deg < 0] += 360
+                    clamped = (deg > 359.5).any(axis=0)     # the library clamps these to 359.5: column left out
+                    if shifts[kind]:
+                        deg = deg - shifts[kind]
+                        deg[deg < 0] += 360
+                    ok_shape = (np.shape(rots) == deg.shape and len(n_states) == deg.shape[1]
+                                and all(int(x) == nbas for x in n_states)
+                                and np.issubdtype(np.asarray(rots).dtype, np.integer))
+                except Exception as e:  # noqa
+                    ok_shape = False
+                if not ok_shape:
+                    ctx.violation('%s_rotamers: states / atom indices / n_states do not fit together' % kind,
+                                  dict(ident, t='wrapper', traj=tname, kind=kind, b=rat(b)))
+                    continue
+                angles = deg
+                gates = gate_values(hb, b)
+                for c in range(angles.shape[1]):
+                    col = [Fraction(float(x)) for x in angles[:, c]]
+                    if clamped[c] or any((a in gates) or not (0 <= a < 360) for a in col):
+                        ctx.skip('wrapper column with an angle on a gate value / above 359.5')
+                        continue
+                    st = [int(x) for x in rots[:, c]]
+                    rec = dict(ident, t='wrapper', traj=tname, kind=kind, column=c, hb=[num(v) for v in hb],
+                               b=rat(b), angles=[rat(a) for a in col], got=st)
+                    ctx.evaluations += 1
+                    # predicate
+                    wraps = self_wrapping_basins(hb, b)
+                    if st[0] != basin_of(hb, col[0]) or any(s < 0 or s >= nbas for s in st):
+                        ctx.violation('%s_rotamers: first frame / validity' % kind, rec)
+                        continue
+                    for i in range(1, len(st)):
+                        exp = spec_step(hb, b, st[i - 1], col[i])
+                        if st[i] != exp:
+                            known = (nbas == 2 and st[i - 1] in wraps and in_widened(hb, b, st[i - 1], col[i])
+                                     and st[i] != st[i - 1])
+                            ctx.violation('%s_rotamers: frame %d of dihedral %d differs from the hysteresis '
+                                          'automaton' % (kind, i, c), rec, key=K_F13 if known else None)
+                            break
+                    reqs.append({'op': 'C20.rotamers', 'angles': rec['angles'], 'hb': [rat(v) for v in hb],
+                                 'b': rat(b)})
+                    expect.append(rec)
+            # all_rotamers = phi | psi | chi side by side
+            if Fraction(bw) < 120:
+                try:
+                    allr, alli, alln = rotamer.all_rotamers(trj, buffer_width=bw)
+                    p = rotamer.phi_rotamers(trj, buffer_width=bw)
+                    q = rotamer.psi_rotamers(trj, buffer_width=bw)
+                    r = rotamer.chi_rotamers(trj, buffer_width=bw)
+                    ok = (np.array_equal(allr, np.concatenate([p[0], q[0], r[0]], axis=1))
+                          and np.array_equal(alli, np.concatenate([p[1], q[1], r[1]], axis=0))
+                          and np.array_equal(alln, np.concatenate([p[2], q[2], r[2]], axis=0)))
+                except Exception as e:  # noqa
+                    ok = False
+                ctx.tag('wrapper:all')
+                if not ok:
+                    ctx.violation('all_rotamers is not phi|psi|chi side by side',
+                                  dict(ident, t='wrapper', traj=tname, kind='all', b=rat(Fraction(bw))))
+    resp = ctx.driver(reqs)
+    bad = 0
+    for rec, r in zip(expect, resp):
+        if r.get('ok') != rec['got']:
+            bad += 1
+            if bad <= 2:
+                ctx.disagreement('Model.Rotamer.rotamers vs %s_rotamers column' % rec['kind'], dict(rec, model=r))
+    ctx.note('wrapper_scope', {'columns_checked': len(reqs), 'model_mismatches': bad,
+                               'trajectories': [t[0] for t in trajs], 'buffers': [str(x) for x in buffers]})
+
+
+# ----------------------------------------------------------------------------------------------
+# transitions
+
+DTYPES = ['int8', 'int16', 'int32', 'int64', 'uint8', 'uint16', 'uint32', 'uint64']
+
+
+def dt_info(name):
+    d = np.dtype(name)
+    return {'bits': d.itemsize * 8, 'signed': d.kind == 'i'}
+
+
+def gen_row(rng, n, dtype, style):
+    info = np.iinfo(dtype)
+    pool_kind = rng.random()
+    if pool_kind < 0.6:
+        pool = [0, 1, 2, 3][:int(rng.integers(2, 5))]
+    elif pool_kind < 0.8:
+        pool = [int(info.min), int(info.max), 0, 1]              # wrap-around in the subtraction
+    else:
+        pool = [int(info.max), int(info.max) - 1, int(info.min) + 1]
+    if style == 'quiet':
+        v = pool[int(rng.integers(0, len(pool)))]
+        return [v] * n
+    if style == 'busy':
+        return [pool[int(rng.integers(0, len(pool)))] for _ in range(n)]
+    # sticky: long quiet runs
+    out, cur = [], pool[int(rng.integers(0, len(pool)))]
+    for _ in range(n):
+        if rng.random() < 0.25:
+            cur = pool[int(rng.integers(0, len(pool)))]
+        out.append(cur)
+    return out
+
+
+def gen_t1(rng):
+    dtype = DTYPES[int(rng.integers(0, len(DTYPES)))]
+    n = int(rng.choice([0, 1, 2, 3, 5, 9, 17, 30]))
+    style = ['busy', 'sticky', 'quiet'][int(rng.choice([0, 0, 1, 1, 1, 1, 2]))]
+    return {'t': 't1', 'dtype': dtype, 'xs': gen_row(rng, n, dtype, style)}
+
+
+def gen_t2(rng, form=None):
+    dtype = DTYPES[int(rng.integers(0, len(DTYPES)))]
+    form = form or ['c', 'c', 'f', 'transposed-view', 'ragged'][int(rng.integers(0, 5))]
+    ntr = int(rng.choice([1, 2, 3, 4, 6]))
+    pattern = int(rng.choice([0, 1, 2, 3, 4, 5, 5, 5, 5, 5, 1, 2, 3]))
+    if form == 'ragged':
+        lens = [int(rng.integers(2, 10)) for _ in range(ntr)]
+        if rng.random() < 0.15:
+            lens[int(rng.integers(0, ntr))] = int(rng.integers(0, 2))      # a 0/1-frame trajectory
+        if ntr >= 2 and len(set(lens)) == 1:
+            lens[0] += 1
+    else:
+        nf = int(rng.choice([0, 1, 2, 3, 3, 5, 5, 8, 8, 12]))
+        lens = [nf] * ntr
+    rows = []
+    for i, L in enumerate(lens):
+        if pattern == 0:
+            style = 'quiet'                                             # nothing anywhere
+        elif pattern == 1:
+            style = 'quiet' if i == 0 else 'busy'                       # quiet row at the start
+        elif pattern == 2:
+            style = 'quiet' if i == ntr - 1 else 'busy'                 # … at the end
+        elif pattern == 3:
+            style = 'quiet' if (0 < i < ntr - 1) else 'busy'            # … in the middle
+        elif pattern == 4:
+            style = 'busy' if i == ntr - 1 else 'quiet'                 # only the last row moves
+        else:
+            style = ['busy', 'sticky', 'quiet'][int(rng.integers(0, 3))]
+        rows.append(gen_row(rng, L, dtype, style))
+    return {'t': 't2', 'dtype': dtype, 'form': form, 'rows': rows}
+
+
+def ref_transitions(xs):
+    return [n for n in range(len(xs) - 1) if xs[n] != xs[n + 1]]
+
+
+def call_t1(case):
+    from enspara.cards import disorder
+    a = np.array(case['xs'], dtype=case['dtype'])
+    before = a.tobytes()
+    try:
+        out = disorder.transitions(a)
+    except Exception as e:  # noqa
+        return {'error': type(e).__name__}
+    return {'ok': [int(x) for x in out], 'ndim': int(np.ndim(out)), 'unchanged': a.tobytes() == before}
+
+
+def call_t2(case):
+    from enspara.cards import disorder
+    from enspara import ra
+    rows, dtype, form = case['rows'], case['dtype'], case['form']
+    if form == 'ragged':
+        a = ra.RaggedArray([np.array(r, dtype=dtype) for r in rows])
+    else:
+        nf = len(rows[0]) if rows else 0
+        base = np.array(rows, dtype=dtype).reshape(len(rows), nf)
+        if form == 'f':
+            a = np.asfortranarray(base)
+        elif form == 'transposed-view':
+            a = np.ascontiguousarray(base.T).T
+        else:
+            a = base
+    try:
+        tt = disorder.transitions(a)
+    except Exception as e:  # noqa
+        return {'error': type(e).__name__}
+    try:
+        lengths = [int(x) for x in tt.lengths]
+        out = [[int(x) for x in tt[i]] for i in range(len(lengths))]
+    except Exception as e:  # noqa
+        return {'error': 'unreadable-result:' + type(e).__name__}
+    return {'ok': out, 'lengths': lengths}
+
+
+def check_t1(ctx, case, got, model):
+    xs = case['xs']
+    ref = ref_transitions(xs)
+    ctx.case(case, nontrivial=len(ref) > 0,
+             tags=['t1', 'dtype=%s' % case['dtype'], 't1-len=%d' % len(xs), 't1-quiet' if not ref else 't1-moves'])
+    if 'error' in got:
+        ctx.violation('transitions (1-D) raised %s' % got['error'], case)
+        return
+    if got['ok'] != ref or got['ndim'] != 1:
+        ctx.violation('transitions (1-D) does not report exactly the frames whose successor differs',
+                      dict(case, got=got['ok'], expected=ref))
+        return
+    if model.get('ok') != got['ok']:
+        ctx.disagreement('Model.Rotamer.transitions1d vs disorder.transitions', dict(case, model=model, impl=got))
+
+
+def check_t2(ctx, case, got, model):
+    rows = case['rows']
+    ref = [ref_transitions(r) for r in rows]
+    quiet = all(len(r) == 0 for r in ref)
+    short = case['form'] == 'ragged' and any(len(r) < 2 for r in rows)
+    qpos = [i for i, r in enumerate(ref) if not r]
+    where = []
+    if qpos and not quiet:
+        if 0 in qpos:
+            where.append('quiet-row-first')
+        if len(rows) - 1 in qpos:
+            where.append('quiet-row-last')
+        if any(0 < i < len(rows) - 1 for i in qpos):
+            where.append('quiet-row-middle')
+    ctx.case(case, nontrivial=not quiet,
+             tags=['t2', 't2-form=%s' % case['form'], 'dtype=%s' % case['dtype'], 't2-ntraj=%d' % len(rows),
+                   't2-all-quiet' if quiet else 't2-moves'] + where + (['t2-short-ragged-row'] if short else []))
+    if 'error' in got:
+        # any failure is a violation; only the ragged form with a 0/1-frame trajectory is a known finding
+        key = K_SHORT if short else None
+        ctx.violation('transitions (%s, %d trajectories) raised %s' % (case['form'], len(rows), got['error']),
+                      case, key=key)
+        return
+    if got['ok'] != ref or len(got['ok']) != len(rows):
+        ctx.violation('transitions (2-D) is not the per-trajectory list of frames whose successor differs',
+                      dict(case, got=got['ok'], expected=ref))
+        return
+    if model.get('ok') != got['ok']:
+        ctx.disagreement('Model.Rotamer.transitions2d vs disorder.transitions', dict(case, model=model, impl=got))
+
+
+def t_request(case):
+    info = dt_info(case['dtype'])
+    if case['t'] == 't1':
+        return dict(info, op='C20.transitions1d', xs=case['xs'])
+    return dict(info, op='C20.transitions2d', rows=case['rows'])
+
+
+# ----------------------------------------------------------------------------------------------
+
 def run(ctx):
-    raise NotImplementedError
+    from enspara import __file__ as ens_file
+    repo_dir = os.path.dirname(os.path.dirname(ens_file))
+    info = _extract(repo_dir)
+    sets, shifts = info['sets'], info['shift']
+    # the generated Lean constants are the ones this run extracted from the staged source
+    consts = ctx.driver([{'op': 'C20.consts'}])[0].get('ok', {})
+    model_sets = [[Fraction(n, d) for n, d in s] for s in consts.get('sets', [])]
+    if model_sets != [[F(v) for v in sets[k]] for k in ('phi', 'psi', 'chi')]:
+        ctx.disagreement('generated boundary sets in the Lean model differ from the staged source',
+                         {'t': 'consts', 'model': consts, 'source': sets})
+    ctx.note('boundary_sets', sets)
+    ctx.note('default_buffers', info['buffers'])
+
+    helper_scope(ctx, sets)
+
+    # core routine
+    cases = []
+    for name in ('phi', 'psi', 'chi'):                               # the coordinator's witness, per set
+        cases.append({'t': 'rot', 'set': name, 'hb': list(sets[name]), 'b': rat(100), 'angles': [rat(10), rat(200), rat(10)],
+                      'kind': 'witness', 'container': 'float64', 'hb_as_array': False})
+    cases += [gen_rot_case(ctx.rng, sets) for _ in range(ctx.n(5000, 40000))]
+    # default buffers of the wrappers on every set
+    for name in ('phi', 'psi', 'chi'):
+        for _ in range(ctx.n(20, 200)):
+            c = gen_rot_case(ctx.rng, sets, force_set=name)
+            hb = [F(v) for v in c['hb']]
+            b = F(info['buffers'][name])
+            c['b'] = rat(b)
+            c['angles'] = [rat(a) for a in fix_gates([Fraction(*a) for a in c['angles']], gate_values(hb, b), ctx.rng)]
+            cases.append(c)
+    cases = [c for c in cases if Fraction(*c['b']) < Fraction(360, len(c['hb']) - 1)]
+    errs = gen_err_cases(sets)
+    resp = ctx.driver([rot_request(c) for c in cases + errs])
+    for c, r in zip(cases, resp[:len(cases)]):
+        check_rot(ctx, c, call_rotamers(c), r)
+    for c, r in zip(errs, resp[len(cases):]):
+        check_rot_err(ctx, c, call_rotamers(c), r)
+
+    wrapper_scope(ctx, sets, shifts, int(ctx.rng.integers(0, 2 ** 31)), ctx.thorough)
+
+    # transitions
+    tcases = [gen_t1(ctx.rng) for _ in range(ctx.n(1500, 10000))]
+    tcases += [gen_t2(ctx.rng) for _ in range(ctx.n(2500, 15000))]
+    tcases += [{'t': 't2', 'dtype': 'int64', 'form': 'c', 'rows': []},
+               {'t': 't2', 'dtype': 'int16', 'form': 'c', 'rows': [[0, 0, 0], [0, 1, 0], [2, 2, 2], [1, 1, 0], [0, 0, 0]]},
+               {'t': 't2', 'dtype': 'uint8', 'form': 'c', 'rows': [[0, 255], [255, 255]]}]
+    tresp = ctx.driver([t_request(c) for c in tcases])
+    for c, r in zip(tcases, tresp):
+        if c['t'] == 't1':
+            check_t1(ctx, c, call_t1(c), r)
+        else:
+            check_t2(ctx, c, call_t2(c), r)
 
 
 def replay(ctx, case):
-    raise NotImplementedError
+    t = case.get('t')
+    if t == 'rot':
+        check_rot(ctx, case, call_rotamers(case), ctx.driver([rot_request(case)])[0])
+    elif t == 'rot-err':
+        check_rot_err(ctx, case, call_rotamers(case), ctx.driver([rot_request(case)])[0])
+    elif t == 'wrapper':
+        from enspara import __file__ as ens_file
+        info = _extract(os.path.dirname(os.path.dirname(ens_file)))
+        wrapper_scope(ctx, info['sets'], info['shift'], case['wseed'], case['thorough'])
+    elif t == 't1':
+        check_t1(ctx, case, call_t1(case), ctx.driver([t_request(case)])[0])
+    elif t == 't2':
+        check_t2(ctx, case, call_t2(case), ctx.driver([t_request(case)])[0])
+    elif t == 'helper':
+        from enspara.geometry import rotamer
+        rq = case['req']
+        hb = [num(Fraction(*v)) for v in rq['hb']]
+        b = num(Fraction(*rq['b']))
+        if rq['op'] == 'C20.gates':
+            lo, up = rotamer.get_gates(rq['s'], hb, b)
+            im = [rat(lo), rat(up)]
+        else:
+            im = bool(rotamer.is_buffered_transition(rq['s'], float(Fraction(*rq['a'])), hb, b))
+        r = ctx.driver([rq])[0]
+        if r.get('ok') != im:
+            ctx.disagreement('Model.Rotamer helper vs rotamer helper', dict(case, impl_now=im, model=r))
+        if rq['op'] == 'C20.exit':
+            hbf = [Fraction(*v) for v in rq['hb']]
+            bf, af = Fraction(*rq['b']), Fraction(*rq['a'])
+            if af not in gate_values(hbf, bf) and im != (not in_widened(hbf, bf, rq['s'], af)):
+                known = len(hbf) == 3 and rq['s'] in self_wrapping_basins(hbf, bf) and im
+                ctx.violation('is_buffered_transition disagrees with widened-basin membership', case,
+                              key=K_F13 if known else None)
+    elif t == 'consts':
+        run(ctx)
+    else:
+        raise ValueError('unknown replay record %r' % t)
